@@ -127,6 +127,7 @@ type Exec struct {
 	observedT   []obsEntry
 	selfSamples []SelfSample // concrete samples of returned paths (translation validation)
 	selfSeen int
+	codecNoFaults bool // rt.CodecFaults(false): marshal stubs never fail
 	selfWant    int
 
 	// statistics over the whole run
